@@ -5,6 +5,7 @@ from core import enc, q
 from gen import SeqGen, dyadic
 
 ID = "C06"
+HEAP_SUMMARY = True      # end every program with the reference-level observation (BB.Model.Heap vs id() walk)
 LEAN_MODULE = "BB.Properties.C06"
 QUICK_N = 300
 THOROUGH_N = 6000
